@@ -26,6 +26,7 @@
 package envelope
 
 import (
+	"bytes"
 	"errors"
 	"fmt"
 	"io"
@@ -275,6 +276,27 @@ func ToIPLD(privKey crypto.PrivKey, token Tokener) (datamodel.Node, error) {
 	})
 }
 
+// ErrNotCanonical is returned when sealed data is valid DAG-CBOR but not in its canonical form.
+var ErrNotCanonical = errors.New("sealed data is not canonical DAG-CBOR")
+
+// CheckCanonicalDagCbor verifies that data is the canonical DAG-CBOR encoding of the value it decodes to
+// (shortest length prefixes, definite lengths, sorted map keys, 64-bit floats). A sealed token is
+// identified by the CID of its bytes, so only one byte string may stand for a given signed content.
+func CheckCanonicalDagCbor(data []byte) error {
+	node, err := ipld.Decode(data, dagcbor.Decode)
+	if err != nil {
+		return err
+	}
+	canonical, err := ipld.Encode(node, dagcbor.Encode)
+	if err != nil {
+		return err
+	}
+	if !bytes.Equal(canonical, data) {
+		return ErrNotCanonical
+	}
+	return nil
+}
+
 // FindTag inspects the given token IPLD representation and extract the token tag.
 func FindTag(node datamodel.Node) (string, error) {
 	sigPayloadNode, err := node.LookupByIndex(1)
@@ -323,6 +345,11 @@ type Info struct {
 // Inspect inspects the given token IPLD representation and extract some envelope facts.
 func Inspect(node datamodel.Node) (Info, error) {
 	var res Info
+
+	// the envelope is exactly [Signature, SigPayload]: anything else would not be covered by the signature
+	if node.Kind() != datamodel.Kind_List || node.Length() != 2 {
+		return Info{}, fmt.Errorf("expected an envelope of two and only two elements")
+	}
 
 	signatureNode, err := node.LookupByIndex(0)
 	if err != nil {
